@@ -221,6 +221,71 @@ func c13(e *Env) {
 			return ""
 		}()+"): the file is then deleted with the temp dir - what the command wrote is lost, e.g. when something already exists at the destination")
 	}
+	// ---- R3c the walk goes on after a successful move, and a missing destination directory is created first
+	ob3c := r.Ob("R3", "finalize:walk-continues+dest-dir", "after a successful move of an extra file the walk callback returns no error of its own (the walk continues with the next file), and a missing destination directory is created before the move")
+	for _, c := range g.Ctxs {
+		if !c.Callback || c.CallNode == nil || !c.CallNode.IsCallTo("path/filepath.Walk", "path/filepath.WalkDir") {
+			continue
+		}
+		for _, rn := range sp.extraRename {
+			inCb := false
+			for cc := rn.Ctx; cc != nil; cc = cc.Parent {
+				if cc == c {
+					inCb = true
+				}
+			}
+			if !inCb {
+				continue
+			}
+			// (1) rename succeeded: the callback does not return a freshly made error
+			res := g.Run(core.Scenario{Start: rn, Result: core.NilAV()})
+			isBad := func(m *core.Node) bool {
+				if m.Kind != core.KRet || m.Ctx != c {
+					return false
+				}
+				rt, ok := m.Instr.(*ssa.Return)
+				if !ok || len(rt.Results) == 0 {
+					return false
+				}
+				call, ok := rt.Results[len(rt.Results)-1].(*ssa.Call)
+				if !ok || call.Call.StaticCallee() == nil {
+					return false
+				}
+				switch call.Call.StaticCallee().String() {
+				case "errors.New", "fmt.Errorf":
+					return true
+				}
+				return false
+			}
+			// (only this invocation of the callback: the walk calls it again for the next entry)
+			badRet := res.ReachesAvoiding(isBad, func(m *core.Node) bool { return m.Kind == core.KRet && m.Ctx == c && !isBad(m) })
+			if badRet != nil {
+				ob3c.Fail(g.Where(rn), "after a successful rename the callback returns an error of its own ("+g.Where(badRet)+"): the walk stops, the remaining extra files stay in the temp dir and are deleted with it")
+				continue
+			}
+			// (2) destination directory: a stat of Dir(destination) that says ENOENT leads to MkdirAll before the rename
+			dst := e.xargSym(rn, 1).String()
+			okDir, nStat := true, 0
+			for _, st := range g.Select(isStat) {
+				if st.Ctx != rn.Ctx && !inCtxChain(st.Ctx, c) {
+					continue
+				}
+				as := e.xargSym(st, 0).String()
+				if !strings.Contains(as, "filepath.Dir(") || !strings.Contains(dst, strings.TrimSuffix(strings.TrimPrefix(as, "path/filepath.Dir("), ")")) {
+					continue
+				}
+				nStat++
+				r2 := g.Run(core.Scenario{Start: st, Result: errResult(st, core.ErrNotExist, false)})
+				if r2.ReachesAvoiding(func(m *core.Node) bool { return m == rn }, isMkdir) != nil {
+					okDir = false
+					ob3c.Fail(g.Where(st), "when the directory of an extra file's destination does not exist the rename is reached without MkdirAll (the test's polarity is wrong): files a command leaves in new sub-directories cannot be moved out")
+				}
+			}
+			if okDir {
+				ob3c.OK(g.Where(rn), fmt.Sprintf("rename ok ⇒ walk continues; %d destination-dir test(s): ENOENT ⇒ MkdirAll before the rename", nStat))
+			}
+		}
+	}
 	if nCb == 0 {
 		ob3b.Unknown("-", "no modelled filepath.Walk callback in Execute's call tree")
 	}
@@ -388,4 +453,14 @@ func (e *Env) noCutsetTrim(ob *core.Obligation, fn *ssa.Function) {
 func (e *Env) c13Routing() {
 	e.fmtArmO("R2")
 	e.fmtRouting("R2")
+	e.fmtValueFlow("R2")
+}
+
+func inCtxChain(c, anc *core.Ctx) bool {
+	for x := c; x != nil; x = x.Parent {
+		if x == anc {
+			return true
+		}
+	}
+	return false
 }
